@@ -16,7 +16,13 @@
 //! `/x` must reach the backend equal but for the path (with and without a presented / configured PSK,
 //! a key, near-miss upgrade headers, a body, a query, forwarding headers; in-process and over TCP).
 //!
-//! Non-trivial case: a GET whose target routes to `ws_handler` (gets past the path and method tests).
+//! The client's half (`gate_parts/client_request.rs`, also alone with `--family client-request`): generated
+//! pairs of command lines, the real client's request captured on a loopback listener, compared with the
+//! model's `ClientReq.sent`, handed to the real `State::call` / `run_listener`, monitors `right-key-refused`
+//! and `wrong-key-admitted`; `ServerUrl::from_str` against `normalizeUrl`.
+//!
+//! Non-trivial case: a GET whose target routes to `ws_handler` (gets past the path and method tests); in
+//! the client-request family: a request the real client wrote and the listener captured.
 
 use bytes::Bytes;
 use futures_util::FutureExt;
@@ -27,6 +33,10 @@ use pvhf::*;
 use rusty_penguin_lib::server::State;
 use std::collections::HashMap;
 use std::panic::AssertUnwindSafe;
+
+/// Family `client-request` (`--family client-request`): the request the real client builds.
+#[path = "gate_parts/client_request.rs"]
+mod client_request;
 
 // ---------------------------------------------------------------------------------------------
 // Own SHA-1 and base64 (independent oracle for the accept hash; self-tested on RFC vectors)
@@ -2186,6 +2196,9 @@ fn replay(path: &str) -> i32 {
     let v: Value = serde_json::from_str(&text).expect("replay json");
     let rp = if v.get("replay").is_some() { &v["replay"] } else { &v };
     let rp = if rp.get("case").is_some() { &rp["case"] } else { rp };
+    if let Some(c) = client_request::CrCase::from_json(rp) {
+        return client_request::replay(&c);
+    }
     if let Some(r) = ViewReq::from_json(rp) {
         return replay_view(&r);
     }
@@ -2282,6 +2295,19 @@ fn main() {
     if let Some(p) = &args.replay {
         std::process::exit(replay(p));
     }
+    let cr_rule = "family client-request: generated pairs of a client and a server command line (parsed by the real PenguinCli): --ws-psk on both sides {equal, different \
+(case variant, prefix, suffix, padded, unrelated), client only, server only, neither} with plain, spaced, tabbed, non-ASCII and empty keys, --hostname \
+{absent, names, non-ASCII, padded, empty}, 0-3 --header arguments {not a gate header; x-penguin-psk / sec-websocket-protocol / upgrade / connection / \
+sec-websocket-version / sec-websocket-key / host in any case; malformed}, server URL with scheme {ws, wss, http, https, other case, other, none} x user info x \
+{/ws, /ws?query, no path, /, other paths}; the real client's request is captured on a loopback listener (plain or TLS); non-trivial = a request was \
+written and captured; distinct by the generated pair; plus the product of 13 schemes x 15 authorities x 15 paths through ServerUrl::from_str";
+    if args.opt("--family") == Some("client-request") {
+        // the family alone (development, replays of its cases)
+        let mut rep = Report::new("gate-client-request", &args, cr_rule);
+        client_request::family(&args, &mut rep);
+        rep.finish(&args);
+        std::process::exit(i32::from(rep.has_failures()));
+    }
     let rule = "every combination of method {GET,POST,HEAD,CONNECT,get} x target {/ws,/ws/,/WS,/ws?x,/health,/version,/x} x \
 {absent,exact,case-changed,near-miss}^5 over connection/upgrade/sec-websocket-version/-protocol/-key x presented x-penguin-psk \
 {absent,equal,case-variant,near-miss,prefix,padded} x PSK configured or not x obfs x OnUpgrade present or not, plus each header alone \
@@ -2290,7 +2316,8 @@ fn main() {
 presented x-penguin-psk (numeric look-alikes of 13, the token with something before/after/inside it, list forms, other case, white space, \
 non-ASCII look-alikes, the header on several lines) each on an otherwise valid request; non-trivial = a GET whose target routes to ws_handler (gets past the path and method tests); \
 distinct by request and configuration";
-    let mut rep = Report::new("gate", &args, rule);
+    let rule = format!("{rule} || {cr_rule}");
+    let mut rep = Report::new("gate", &args, &rule);
     let threads = std::thread::available_parallelism().map_or(4, |n| n.get()).min(32);
     let mut rng = Rng::new(args.seed);
     corpus_part(&args, &mut rep);
@@ -2336,6 +2363,8 @@ case-changed ({}), each x {per_combo}",
     wire_part(&mut rep);
     backend_part(&mut rep);
     backend_view_part(&args, &mut rep, full);
+    // the client's half: the request the real client builds, against the model and the real server
+    client_request::family(&args, &mut rep);
     rep.finish(&args);
     std::process::exit(i32::from(rep.has_failures()));
 }
